@@ -7,6 +7,7 @@
 //!   yields / spins / short sleeps.
 
 pub mod managed;
+pub mod race;
 pub mod unmanaged;
 
 use std::cell::{Cell, RefCell};
